@@ -302,7 +302,9 @@ func init() {
 		checkAutoCompact(p, r)
 		// the range that was chosen is applied to the stack it was chosen for: the
 		// compaction goes on only if the handle's stack is still the listed one
-		checkFsSubset(p, r, []string{"LIST-VALID", "LIST-CONTENT"}, map[string]int{"LIST-VALID": 5})
+		// and a compaction that merged reports success only after installing its result
+		// (also an empty one): otherwise the same tables stay due for ever
+		checkFsSubset(p, r, []string{"LIST-VALID", "LIST-CONTENT", "COMPACT-PUBLISHES"}, map[string]int{"LIST-VALID": 5, "COMPACT-PUBLISHES": 2})
 		r.Engines = []string{"pathsim", "dtable"}
 		r.Explanation = "Narrow structural clauses of the auto-compaction property, decided on every path of the chooser and of AutoCompact by abstract simulation: a candidate segment is adopted only after its size was found different from one table; nil is returned exactly when the adopted segment is empty; after the choice the segment only grows by moving its start down by one position at a time; AutoCompact compacts exactly [seg.start, seg.end-1] of a non-nil choice with a nil expiry policy and does nothing otherwise. Together with C07's range rules this gives: what auto-compaction merges is one contiguous range that is never a single table."
 		r.NotDecided = []string{"the power-of-two size classes (which segment is adopted among several)", "that 'nothing to do' coincides with 'no two adjacent tables in the same class'", "the 2*log2(N) depth bound and the N*log2(N) rewrite cost for uniform workloads", "that segment sizes are non-negative (end >= start for the candidates)"}
